@@ -22,7 +22,12 @@ func resolveLocal(info *types.Info, body ast.Node, e ast.Expr) ast.Expr {
 			return e
 		}
 		if v.Pos() < body.Pos() || v.Pos() >= body.End() {
-			return e // parameter / result / captured from outside
+			// a parameter / result of the analysed function or a variable captured from an enclosing function stays as it
+			// is (its other assignments are not in body). A variable of a helper that core.Expanded spliced in is declared
+			// in a scope that does not enclose body: its definitions are all in body, so it can be followed.
+			if sc := v.Parent(); sc == nil || (sc.Pos() <= body.Pos() && body.End() <= sc.End()) || !splicedScope(sc, body) {
+				return e
+			}
 		}
 		d := singleDef(info, body, v)
 		if d == nil {
@@ -262,4 +267,10 @@ func rootExpr(e ast.Expr) ast.Expr {
 			return e
 		}
 	}
+}
+
+// splicedScope reports whether scope sc (where a variable is declared) lies entirely outside body, i.e. belongs to
+// another function declaration whose statements were spliced into body by the helper expansion.
+func splicedScope(sc *types.Scope, body ast.Node) bool {
+	return sc.End() <= body.Pos() || sc.Pos() >= body.End()
 }
